@@ -56,9 +56,13 @@ func init() {
 		rii := run.Rule("ERR-ii", "no non-zero result is returned together with an error", 40).RequireControl(1)
 		rlen := run.Rule("LEN-const", "constant-bound accesses on parameter-derived slices are guarded by a length fact along every call chain from an exported entry", 60).RequireControl(1)
 		rpanic := run.Rule("PANIC-class", "every explicit panic is provably impossible, a guarded vector stub, init-time, or documented", 40).RequireControl(1)
+		rneu := run.Rule("ERR-iii", "every UnmarshalBinary leaves its receiver neutral on failure: no input-derived data, and either reset to one constant state on all failing paths or untouched, per the frozen mode table", 25)
 		for _, id := range c.Configs() {
 			p := c.Prog(id)
 			run.SetConfig(id)
+			if id == c.Configs()[0] {
+				run.Sample(map[string]any{"config": id, "decoders": checkDecoderNeutrality(p, rneu)})
+			}
 			st := elen.CheckErr(run, p, ri, rii, nil)
 			run.Sample(map[string]any{"config": id, "error-returning functions": st.Functions, "failure tests": st.Tests, "returns": st.Returns})
 			ent := elen.NewEntries(p)
